@@ -461,6 +461,8 @@ class PoolManager(RequestMethods):
             # And lose the body not to transfer anything sensitive.
             kw["body"] = None
             body_pos = None
+            # A request without content is not sent chunked.
+            kw["chunked"] = False
             kw["headers"] = HTTPHeaderDict(kw["headers"])._prepare_for_method_change()
 
         retries = kw.get("retries")
